@@ -189,6 +189,9 @@ class Acc:
         cls = FAIL_KINDS[kind]
         if kind == "os":
             raise OSError(1 + x % 30, "boom %d" % x)
+        if x % 3 == 0:
+            # an argument that is a container (the offending values, a key): it must arrive as what it is, batched or not
+            raise cls(x, kind, [x, [kind, None]], {"k": x})
         raise cls(x, kind)
 
     def hidden(self, x):
